@@ -378,6 +378,17 @@ func (l vfX01Label) json() map[string]interface{} {
 
 // ---------------------------------------------------------------- environment
 
+// vfX01CountRR is the round-robin policy plus a count of HostUp calls (the end of handleNodeConnected)
+type vfX01CountRR struct {
+	HostSelectionPolicy
+	ups int32
+}
+
+func (p *vfX01CountRR) HostUp(h *HostInfo) {
+	p.HostSelectionPolicy.HostUp(h)
+	atomic.AddInt32(&p.ups, 1)
+}
+
 type vfX01Fetch struct {
 	rid    int
 	ks     string
@@ -416,9 +427,11 @@ type vfX01Env struct {
 	notable map[int]bool
 	pkprep  bool
 	hold    bool
+	holdPolls bool
 	rid     int
 	fetch   map[string]*vfX01Fetch // keyspace -> fetch in progress / last fetch
 	held    []*vfX01Held
+	streak  map[string]int // keyspace/part -> answers still to fail (a failed query is retried by the control connection)
 	rng     *rand.Rand
 	pFail   float64
 	maxFail int
@@ -431,6 +444,8 @@ type vfX01Env struct {
 	ddlReply string                   // "change" | "error"
 	ddlNew   string                   // local version after the statement
 	polls    int32
+	npeers   int // system.peers polls that arrived while a wait was armed
+	ndll     int // schema-changing statements answered
 	// policy spy
 	npol   int
 	polres vfX01Label
@@ -460,7 +475,7 @@ func vfX01NewEnv(o vfX01Opts) (*vfX01Env, error) {
 		o.Release = "3.11.4"
 	}
 	e := &vfX01Env{proto: o.Proto, ver: map[string]int{"k1": 1, "k2": 1}, absent: map[int]bool{}, notable: map[int]bool{},
-		fetch: map[string]*vfX01Fetch{}, hold: o.Hold, pkprep: o.PkPrep, rng: rand.New(rand.NewSource(o.Seed)),
+		fetch: map[string]*vfX01Fetch{}, streak: map[string]int{}, hold: o.Hold, pkprep: o.PkPrep, rng: rand.New(rand.NewSource(o.Seed)),
 		awLocal: "a", ddlReply: "change", ddlNew: "b"}
 	for _, v := range o.Absent {
 		e.absent[v] = true
@@ -481,16 +496,24 @@ func vfX01NewEnv(o vfX01Opts) (*vfX01Env, error) {
 		cfg.MaxRoutingKeyInfo = 1000
 	}
 	cfg.MaxWaitSchemaAgreement = o.MaxWait
-	cfg.Timeout = 5 * time.Second // held answers must not run into the request timeout
+	cfg.Timeout = 60 * time.Second // held answers must not run into the request timeout
+	crr := &vfX01CountRR{HostSelectionPolicy: RoundRobinHostPolicy()}
 	if o.Policy {
-		cfg.PoolConfig.HostSelectionPolicy = TokenAwareHostPolicy(RoundRobinHostPolicy())
+		cfg.PoolConfig.HostSelectionPolicy = TokenAwareHostPolicy(crr)
+	} else {
+		cfg.PoolConfig.HostSelectionPolicy = crr
 	}
 	s, err := NewSession(*cfg)
 	if err != nil {
 		return nil, err
 	}
 	e.sess = s
-	e.sc.BindSession(s)
+	// the pool reports its first connection on a goroutine of its own (handleNodeConnected marks the host up and
+	// tells the policy): wait for it, so that a later "hosts down" is not undone by it
+	if !vfX01WaitFor(30*time.Second, func() bool { return atomic.LoadInt32(&crr.ups) > 0 && s.getConn() != nil }) {
+		s.Close()
+		return nil, errors.New("vf: the session did not connect its pool")
+	}
 	e.sc.Bind(s.stmtsLRU)
 	e.sc.Bind(s.schemaEvents)
 	e.sc.OnEvent = e.onEvent
@@ -653,10 +676,19 @@ func (e *vfX01Env) answerPrepare(h *vfX01Held, ans string) {
 	h.nc.Reply(h.f, vfOpResult, vfX01Prepared(h.f.Version, []byte("x01s:"+st.Name), st.Ks, "t", binds, pk, []vfX01Col{{"v", vfX01TInt}}))
 }
 
+// vfX01Retries: controlConn.query asks a failing query again (SimpleRetryPolicy{NumRetries: 3}); a fetch fails only
+// when the retries fail too, so a failure the scenario asks for is a failure of the query and of its retries
+const vfX01Retries = 3
+
 // one system_schema query arrived
 func (e *vfX01Env) schemaQuery(h *vfX01Held) {
+	key := h.ks + "/" + h.part
 	e.mu.Lock()
-	if h.part == "ks" {
+	retry := e.streak[key] > 0
+	if retry {
+		e.streak[key]--
+	}
+	if h.part == "ks" && !retry {
 		e.rid++
 		e.fetch[h.ks] = &vfX01Fetch{rid: e.rid, ks: h.ks}
 	}
@@ -667,25 +699,28 @@ func (e *vfX01Env) schemaQuery(h *vfX01Held) {
 		e.fetch[h.ks] = fe
 	}
 	rid := fe.rid
-	holdIt := e.hold && (h.part == "ks" || h.part == "tb")
+	holdIt := !retry && e.hold && (h.part == "ks" || h.part == "tb")
 	if holdIt {
 		e.held = append(e.held, h)
 	}
+	failNow := retry || (e.hold && !holdIt && fe.failAt == h.part)
+	if failNow && !retry {
+		e.streak[key] = vfX01Retries
+	}
+	hold := e.hold
 	e.mu.Unlock()
 	e.tr.Emit("q_arr", "k", h.ks, "part", h.part, "rid", rid)
 	if holdIt {
 		return
 	}
 	ans := "ok"
-	e.mu.Lock()
-	if e.hold {
-		if fe.failAt == h.part {
-			ans = "fail"
-		}
-	}
-	e.mu.Unlock()
-	if !e.hold && e.roll() {
+	if failNow {
 		ans = "fail"
+	} else if !hold && e.roll() {
+		ans = "fail"
+		e.mu.Lock()
+		e.streak[key] = vfX01Retries
+		e.mu.Unlock()
 	}
 	e.answerSchema(h, ans)
 }
@@ -707,7 +742,7 @@ func (e *vfX01Env) answerSchema(h *vfX01Held, ans string) {
 		out = "absent"
 	}
 	// the answer is logged before it is sent: whatever the driver does with it comes later in the trace
-	e.tr.Emit("q_ans", "k", h.ks, "part", h.part, "rid", rid, "v", v, "ans", out)
+	e.tr.Emit("q_ans", "k", h.ks, "part", h.part, "rid", rid, "v", v, "ans", out, "flag", h.part == "tb" && e.notable[v])
 	if ans != "ok" {
 		h.nc.Reply(h.f, vfOpError, vfErrorBody(0x0000, "vf: schema query failed", nil))
 		return
@@ -772,6 +807,11 @@ func (e *vfX01Env) ReleaseSchema(part, ans, failPart string) bool {
 		e.mu.Unlock()
 		ans = "ok"
 	}
+	if ans == "fail" {
+		e.mu.Lock()
+		e.streak[h.ks+"/"+part] = vfX01Retries
+		e.mu.Unlock()
+	}
 	e.answerSchema(h, ans)
 	return true
 }
@@ -790,6 +830,7 @@ func (e *vfX01Env) ReleaseAll() {
 	hs := e.held
 	e.held = nil
 	e.hold = false
+	e.holdPolls = false
 	e.mu.Unlock()
 	for _, h := range hs {
 		switch h.kind {
@@ -925,23 +966,22 @@ func (e *vfX01Env) RouteLRU() [][]string {
 	return out
 }
 
-// the state of a routing cache entry: read without synchronisation while its computation is parked or over
+// the state of a routing cache entry: the WaitGroup counter tells whether the computation has been published
 func vfX01EntryState(ent *inflightCachedEntry) string {
-	done := make(chan struct{})
-	go func() { ent.wg.Wait(); close(done) }()
-	select {
-	case <-done:
-		if ent.err != nil {
-			return "fail"
+	running := false
+	st := reflect.ValueOf(&ent.wg).Elem().FieldByName("state")
+	if st.IsValid() {
+		if v := st.FieldByName("v"); v.IsValid() {
+			running = (v.Uint() >> 32) != 0
 		}
-		return "ok"
-	case <-time.After(2 * time.Millisecond):
-		if ent.err != nil {
-			// the "no connection" path sets the error and publishes with the deferred Done
-			return "fail"
-		}
+	}
+	if ent.err != nil {
+		return "fail"
+	}
+	if running {
 		return "run"
 	}
+	return "ok"
 }
 
 // routing key -> bind positions (values are their own positions, encoded as int)
@@ -1010,7 +1050,10 @@ func (e *vfX01Env) Route(ctx context.Context, s string) vfX01RouteRes {
 func (e *vfX01Env) pollQuery(h *vfX01Held) {
 	atomic.AddInt32(&e.polls, 1)
 	e.mu.Lock()
-	hold := e.hold
+	if h.kind == "peers" {
+		e.npeers++
+	}
+	hold := e.holdPolls
 	if hold {
 		e.held = append(e.held, h)
 	}
@@ -1038,6 +1081,9 @@ func (e *vfX01Env) answerPoll(h *vfX01Held, ans string) {
 		local = e.awLocal
 	}
 	ddlReply := e.ddlReply
+	if h.kind == "ddl" {
+		e.ndll++
+	}
 	e.mu.Unlock()
 	switch h.kind {
 	case "ddl":
